@@ -124,8 +124,8 @@ def validate(traces, geo, nstep, name, acc=True, sorted_listing=True, timeout=36
         for i in range(n):
             tr = traces[i]
             t = i + 1
-            first_m = sorted(mism[t])[0] if t in mism else None
-            first_i = sorted(inv[t])[0] if t in inv else None
+            first_m = min(mism[t], key=lambda x: x[0]) if t in mism else None
+            first_i = min(inv[t], key=lambda x: x[0]) if t in inv else None
             if first_i is not None and (first_m is None or first_i[0] - 1 < first_m[0]):
                 # an invariant of RunGrid fails in a state that matched the implementation so far
                 l, nm = first_i
@@ -160,8 +160,8 @@ def validate(traces, geo, nstep, name, acc=True, sorted_listing=True, timeout=36
         accepted, inv, at, mism = _parse(st["output"])
         for j, i in enumerate(todo, start=1):
             tr = sub[j - 1]
-            first_m = sorted(mism[j])[0] if (diag and j in mism) else None
-            first_i = sorted(inv[j])[0] if j in inv else None
+            first_m = min(mism[j], key=lambda x: x[0]) if (diag and j in mism) else None
+            first_i = min(inv[j], key=lambda x: x[0]) if j in inv else None
             if first_m is not None and (first_i is None or first_m[0] <= first_i[0] - 1):
                 l, nm = first_m
                 verdicts[i] = dict(ok=False, level="property", clause=nm, at=l, trace=tr,
